@@ -35,6 +35,24 @@ let () = run_driver (fun toks impl ->
          end else "na" in
        (m, v)
      | _ -> ("driver-badcase", "na"))
+  | "msfd" :: _fmt :: k :: rest ->
+    (* redeemers that went through the decoder: the same model and spec as msf over ALL entries (tag and index of an
+       entry play no part in the fee) *)
+    let kk = int_of_string k in
+    let rec quads n l = if n = 0 then [] else match l with _ :: _ :: m :: s :: r -> (zs m, zs s) :: quads (n - 1) r | _ -> [] in
+    let units = quads kk rest in
+    (match drop (4 * kk) rest with
+     | [mpn; mpd; spn; spd] ->
+       let m = show (min_script_fee (Some units) (zs mpn) (zs mpd) (zs spn) (zs spd)) in
+       let v = if pos mpd && pos spd then begin
+           let sm = List.fold_left (fun a (m, _) -> BZ.add a (bz_of_z m)) BZ.zero units in
+           let ss = List.fold_left (fun a (_, s) -> BZ.add a (bz_of_z s)) BZ.zero units in
+           let lim = BZ.shift_left BZ.one 64 in
+           if BZ.geq sm lim || BZ.geq ss lim then judge impl "err"
+           else judge impl (show (exact_or_error (spec_script_fee (z_of_bz sm) (z_of_bz ss) (mkQ (zs mpn) (zs mpd)) (mkQ (zs spn) (zs spd)))))
+         end else "na" in
+       (m, v)
+     | _ -> ("driver-badcase", "na"))
   | ["ref"; size; pn; pd] ->
     let m = show (min_ref_script_fee (zs size) (zs pn) (zs pd)) in
     (* Theorem C15_tier_closed_form: under its premises the model value IS the spec value, so the
